@@ -230,10 +230,18 @@ class Check(DiffCheck):
         if os.path.exists(cp):
             cs += [l.strip() for l in open(cp) if l.strip() and not l.startswith('#')]
         import heap_gen
-        cs += heap_gen.heap_cases(tier, rng)
+        hs = heap_gen.heap_cases(tier, rng)
         nprog = 1500 if tier == 'quick' else 40000
-        for i in range(nprog):
-            cs.append(gen_prog(rng, big=(i % 10 == 9)))
+        ps = [gen_prog(rng, big=(i % 10 == 9)) for i in range(nprog)]
+        # interleave the (slow, one fork per run) program cases evenly among the (fast) heap cases so
+        # that run_cases' contiguous shards all get the same share of them
+        step = max(1, len(hs) // max(1, len(ps)))
+        k = 0
+        for i, h in enumerate(hs):
+            if i % step == 0 and k < len(ps):
+                cs.append(ps[k]); k += 1
+            cs.append(h)
+        cs += ps[k:]
         return list(dict.fromkeys(cs))
 
     def canon(self, line):
